@@ -156,7 +156,7 @@ impl Property for C01 {
         "C01"
     }
     fn rule(&self) -> String {
-        "Cases: (LHS operand any zoo type/length/provenance, RHS vector of any type/length/provenance or native integer, op in {+,-,*}, one of 6 forms). Enumerated: all (n,a,m,b) n,m<=4 (quick)/<=6 (thorough) x 19x19 pairings x 3 ops; all (n,a) x integer lattice x 19 x 6 native types; word-pattern lattice {0,1,MAX-1,MAX,MSB,MSB-1}^words for both operands at lengths {kw-1,kw,kw+1,C} on every multi-word type (RHS same type and Bvd / Bvf<u8,17>), all 2^16 value pairs of Bvf<u8,1> at n=m=8; thorough adds 3-word lattices and all values of Bvf<u8,2> x {Bvf<u8,2>,Bvd} for n<=11. Also (through the verif-hooks re-export) the word primitives cadd/csub/wmul/mask of all six word types on an integer lattice squared (u8 exhaustively) and the slice re-chunking get_int/set_int for all 36 word-type pairs. Random: proptest with related pairs (b = a, a+-1, 2^n-a, one bit flipped). Oracle: BigUint/u128 (val a op val b) mod 2^n + observer battery. Non-trivial: n>0, both values non-zero and (the true result wrapped: >= 2^n or < 0; or a carry/borrow crossed a storage-word boundary of the LHS; or for * both operands have >= 2 non-zero words). Distinct by hash of the whole case.".into()
+        "Cases: (LHS operand any zoo type/length/provenance, RHS vector of any type/length/provenance or native integer, op in {+,-,*}, one of 6 forms). Enumerated: all (n,a,m,b) n,m<=4 (quick)/<=6 (thorough) x 20x20 pairings x 3 ops; all (n,a) x integer lattice x 20 x 6 native types; word-pattern lattice {0,1,MAX-1,MAX,MSB,MSB-1}^words for both operands at lengths {kw-1,kw,kw+1,C} on every multi-word type (RHS same type and Bvd / Bvf<u8,17>), all 2^16 value pairs of Bvf<u8,1> at n=m=8; thorough adds 3-word lattices and all values of Bvf<u8,2> x {Bvf<u8,2>,Bvd} for n<=11. Also (through the verif-hooks re-export) the word primitives cadd/csub/wmul/mask of all six word types on an integer lattice squared (u8 exhaustively) and the slice re-chunking get_int/set_int for all 36 word-type pairs. Random: proptest with related pairs (b = a, a+-1, 2^n-a, one bit flipped). Oracle: BigUint/u128 (val a op val b) mod 2^n + observer battery. Non-trivial: n>0, both values non-zero and (the true result wrapped: >= 2^n or < 0; or a carry/borrow crossed a storage-word boundary of the LHS; or for * both operands have >= 2 non-zero words). Distinct by hash of the whole case.".into()
     }
     fn random_cases(&self, tier: Tier) -> u64 {
         tier.pick(300000, 12800000)
@@ -184,8 +184,8 @@ impl Property for C01 {
     fn exhaustive_subspaces(&self, tier: Tier) -> Vec<String> {
         let k = tier.pick(4, 6);
         let mut v = vec![
-            format!("all values of both operands for all lengths n,m<={} x 19x19 type pairings x {{+,-,*}} (form rotates)", k),
-            format!("all values for n<={} x integer lattice x 19 LHS types x 6 native RHS types x {{+,-,*}}", k),
+            format!("all values of both operands for all lengths n,m<={} x 20x20 type pairings x {{+,-,*}} (form rotates)", k),
+            format!("all values for n<={} x integer lattice x 20 LHS types x 6 native RHS types x {{+,-,*}}", k),
             "all 2^16 value pairs of Bvf<u8,1> at n=m=8 x {+,-,*}".into(),
             "primitives (verif-hooks): u8::cadd/csub for all 2^16 operand pairs x carry in {0,1,2,255}, u8::wmul for all pairs; mask(l) for every l in 0..=2w+1 on all six word types; word re-chunking get_int/set_int for all 36 (array word, chunk word) type pairs x arrays of 0..4 words x every index".into(),
         ];
@@ -304,6 +304,30 @@ impl Property for C01 {
                                 if !emit(lt, a, Rhs::V(Operand::canon(rt, b.clone())), op, f) {
                                     return;
                                 }
+                            }
+                        }
+                    }
+                }
+            }
+        }
+        // (iii-b) a op a with both operands the same value AND type (the check then also runs the
+        // aliased form &a op &a), word patterns over up to 9 words
+        for lt in 0..NT {
+            if !sh.mine() {
+                continue;
+            }
+            let w = WORD_BITS[lt as usize];
+            let c = fixed_cap(lt).unwrap_or(9 * w);
+            for nwords in 1..=9usize {
+                for n in [nwords * w, (nwords * w).saturating_sub(3)] {
+                    if n > c || n == 0 {
+                        continue;
+                    }
+                    for pat in [ValPat::Ones, ValPat::Alt(true), ValPat::Dense(vec![0xFFFF_FFFE_FFFF_FFFF, 0xD1B5_4A32_D192_ED03, 0xFFFF_FFFF_FFFF_FFFF]), ValPat::WordPat(vec![3, 5, 3, 2, 3], vec![1, 2, 3, 4])] {
+                        let a = realize_val(&pat, n, w);
+                        for op in ARITH {
+                            if !emit(lt, &a, Rhs::V(Operand::canon(lt, a.clone())), op, f) {
+                                return;
                             }
                         }
                     }
@@ -451,6 +475,7 @@ impl Property for C01 {
         if let BuiltRhs::V(zb) = &rb {
             unchanged(zb, &bbits, &what)?;
         }
+        check_aliased(&za, a, b, *op, &what, st)?;
         // ---- classification
         let n = a.len();
         let w = WORD_BITS[a.ty as usize];
